@@ -2,6 +2,7 @@ package props
 
 import (
 	"bytes"
+	"context"
 	stdjson "encoding/json"
 	"fmt"
 	"math/rand"
@@ -281,6 +282,14 @@ func c12DecodeCase(c *rt.Ctx, sub int, r *rand.Rand, entry string) {
 			err = gojson.NewDecoder(bytes.NewReader(in)).Decode(dst.Interface())
 		case "Decoder(bytes.Buffer)":
 			err = gojson.NewDecoder(bytes.NewBuffer(in)).Decode(dst.Interface())
+		case "UnmarshalNoEscape":
+			err = gojson.UnmarshalNoEscape(in, dst.Interface())
+		case "UnmarshalContext":
+			err = gojson.UnmarshalContext(context.Background(), in, dst.Interface())
+		case "Decoder.DecodeContext":
+			err = gojson.NewDecoder(bytes.NewReader(in)).DecodeContext(context.Background(), dst.Interface())
+		case "Decoder.DecodeWithOption":
+			err = gojson.NewDecoder(bytes.NewReader(in)).DecodeWithOption(dst.Interface(), gojson.DecodeFieldPriorityFirstWin())
 		}
 	})
 	c.Eval(1)
@@ -543,7 +552,7 @@ func init() {
 		},
 		Run: func(c *rt.Ctx) {
 			r := c.RNG(0)
-			entries := []string{"Unmarshal", "UnmarshalWithOption", "Decoder(bytes.Reader)", "Decoder(bytes.Buffer)"}
+			entries := []string{"Unmarshal", "UnmarshalWithOption", "Decoder(bytes.Reader)", "Decoder(bytes.Buffer)", "UnmarshalNoEscape", "UnmarshalContext", "Decoder.DecodeContext", "Decoder.DecodeWithOption"}
 			for k := 0; k < 28; k++ {
 				if !c.Cur(k, fmt.Sprintf("shapes=core\naliasing case %d", k)) {
 					continue
